@@ -14,15 +14,21 @@ Part C  what the library's writers emit is the Spec encoding of exactly the reco
         sizes are the actual lengths; D6: the pre-repair timestamp-delta formula is wrong (counterexample).
 Part D  pages: refcount/pool invariant over all op sequences; a page with a live count is never recycled.
 
-The decoders of the library (readFromVersion1/2, messageSetReader/Batch) are NOT modelled: that they agree
-with the Spec decoder on every valid layout is checked by the byte correspondence only (partial).
-Full statement kept here for the record:
+Part F  the Client.Fetch-path DECODER (Model/RecordReader: readFromVersion2, readMessage/readFromVersion1,
+        RecordSet.ReadFrom, RecordStream) returns on every valid response what the reference decoder returns
+        (`decoders_agree_client`), hides control batches (`control_hidden`) and surfaces nothing of a batch with
+        a wrong checksum (`bad_crc_yields_no_records`).
+Still partial (correspondence `fetch/conn-*`, and C02's token-level model `Model/MessageSetReader` with its theorem
+`single_fetch_partial` for the Conn path): the byte-level equality for the Conn/Batch reader and for v1 WRAPPERS
+on the Client path (the model `libReadV1` covers them; the theorem below covers v2 batches and plain messages):
 
-  theorem decoders_agree : ∀ valid entries es, decodeProto (Spec.encSet es) = decodeLegacy (Spec.encSet es) = flatten es
+  theorem decoders_agree : ∀ valid entries es, clientFetch (encSet es) = connRead (encSet es) = flatten es
 -/
 import KafkaVerif.Lemmas.RecordBatchSpec
 import KafkaVerif.Lemmas.RecordWriter
 import KafkaVerif.Lemmas.Pages
+import KafkaVerif.Lemmas.RecordReader
+import KafkaVerif.Gen.RecordConsts
 
 namespace KV.Props.C05
 open KV KV.RW KV.Spec.RB
@@ -148,6 +154,108 @@ theorem v1_write_spec (c : Crcs) (h1 : ∀ b, c.ieee b < M32) (h2 : ∀ b, c.cas
     (attrs now : Int) (recs : List PRec) (hwf : ∀ m ∈ msgsOfV1 attrs now 0 recs, m.WF) :
     decodeSet c (writeV1 c.ieee attrs now 0 recs) = some ((msgsOfV1 attrs now 0 recs).map Entry.msg) :=
   writeV1_spec c h1 h2 attrs now recs hwf
+
+/-! ## Part F — the library's DECODER on the Client.Fetch path (Model/RecordReader) -/
+
+open Model.RecordReader in
+/-- `decoders_agree`, Client.Fetch side: on every valid response — any sequence of v2 batches (any codec whose
+decompressor returns the encoded records, transactional, control, compaction gaps: any deltas) and plain v0/v1
+messages, any number of entries — the decoder model (`RecordSet.ReadFrom` + `RecordStream`) returns exactly
+the records and absolute offsets of the reference decoder, minus control batches. -/
+theorem decoders_agree_client (c : Crcs) (h1 : ∀ b, c.ieee b < M32) (h2 : ∀ b, c.castagnoli b < M32)
+    (dec : Int → Bytes → Option Bytes) (es : List Entry) (gs : List (Bool × List Rec)) (h : AllGood dec es gs) :
+    flattenAll c dec es = some gs ∧ clientFetch c dec (encSet c es) = surfaced gs := by
+  refine ⟨flattenAll_good c dec es gs h, ?_⟩
+  have := libReadSet_encSet c h1 h2 dec es gs h [] (encSet c es).length (encSet_length_ge c es)
+  simp only [List.append_nil] at this
+  simp only [clientFetch, this]
+  cases (encSet c es).length - es.length <;> simp [libReadSet]
+
+open Model.RecordReader in
+/-- `control_hidden`: nothing of a control batch is surfaced; everything else is, in order -/
+theorem control_hidden (c : Crcs) (h1 : ∀ b, c.ieee b < M32) (h2 : ∀ b, c.castagnoli b < M32)
+    (dec : Int → Bytes → Option Bytes) (es : List Entry) (gs : List (Bool × List Rec)) (h : AllGood dec es gs) :
+    clientFetch c dec (encSet c es) = ((gs.filter (fun g => !g.1)).flatMap (·.2)) ∧
+    (∀ g ∈ gs, g.1 = true → ∀ r ∈ g.2, r ∈ clientFetch c dec (encSet c es) →
+        ∃ g' ∈ gs, g'.1 = false ∧ r ∈ g'.2) := by
+  have hc := (decoders_agree_client c h1 h2 dec es gs h).2
+  refine ⟨hc, ?_⟩
+  intro g _ _ r _ hr
+  rw [hc] at hr
+  simp only [surfaced, List.mem_flatMap, List.mem_filter] at hr
+  obtain ⟨g', ⟨hg', hf⟩, hr'⟩ := hr
+  exact ⟨g', hg', by simpa using hf, hr'⟩
+
+open Model.RecordReader in
+/-- `bad_crc_yields_no_records`: a batch whose stored checksum differs from the computed one ends decoding: the
+records of the entries before it are surfaced, none of the corrupt batch (nor anything after it) -/
+theorem bad_crc_yields_no_records (c : Crcs) (h1 : ∀ b, c.ieee b < M32) (h2 : ∀ b, c.castagnoli b < M32)
+    (dec : Int → Bytes → Option Bytes) (es : List Entry) (gs : List (Bool × List Rec)) (h : AllGood dec es gs)
+    (f : FrameV2) (xs : List RecV2) (hf : GoodBatch dec f xs) (c' : Nat) (hc : c' < M32)
+    (hne : c' ≠ c.castagnoli (frameBody f)) (tail : Bytes) :
+    clientFetch c dec (encSet c es ++ (i64 f.baseOffset ++ (i32 ((9 + (frameBody f).length : Nat) : Int) ++
+      (i32 f.leaderEpoch ++ (i8 2 ++ (u32 c' ++ frameBody f)))) ++ tail)) = surfaced gs := by
+  generalize hbad : (i64 f.baseOffset ++ (i32 ((9 + (frameBody f).length : Nat) : Int) ++
+      (i32 f.leaderEpoch ++ (i8 2 ++ (u32 c' ++ frameBody f))))) = bad
+  have hbl : bad.length = 21 + (frameBody f).length := by rw [← hbad]; simp; omega
+  have hfuel : es.length ≤ (encSet c es ++ (bad ++ tail)).length := by
+    have := encSet_length_ge c es; simp; omega
+  have := libReadSet_encSet c h1 h2 dec es gs h (bad ++ tail) _ hfuel
+  simp only [clientFetch, this]
+  have hk : ∃ k, (encSet c es ++ (bad ++ tail)).length - es.length = k + 1 := by
+    have := encSet_length_ge c es
+    refine ⟨(encSet c es ++ (bad ++ tail)).length - es.length - 1, ?_⟩
+    simp; omega
+  obtain ⟨k, hk⟩ := hk
+  rw [hk]
+  have hnil : libReadSet c dec (k + 1) (bad ++ tail) = [] := by
+    have hl : ¬ (bad ++ tail).length < 17 := by simp; omega
+    have h16 : (bad ++ tail)[16]? = some 2 := by
+      rw [← hbad]; simp only [List.append_assoc]
+      rw [getElem?_skip _ _ _ (by simp), getElem?_skip _ _ _ (by simp), getElem?_skip _ _ _ (by simp)]
+      simp [i8_eq]; decide
+    have hv2 := libReadV2_bytes c.castagnoli dec f xs hf c' hc tail
+    rw [hbad] at hv2
+    have hne' : ¬ c.castagnoli (frameBody f) = c' := fun e => hne e.symm
+    simp only [hne', if_false] at hv2
+    cases hbs : bad ++ tail with
+    | nil => rw [hbs] at hl; simp at hl
+    | cons x t =>
+      rw [hbs] at hl h16 hv2
+      simp only [libReadSet, hl, if_false, h16, if_true, hv2]
+  rw [hnil]; simp
+
+/-! ## Part E — constants regenerated from the Go sources on every run (`go/extract records`) -/
+
+/-- The header sizes, back-patch offsets, attribute masks and magic-byte offset that kafka-go's sources state NOW
+are the ones of the reference layout (`Spec/RecordBatch`) and of the writer models: 61 = length of a Spec batch
+without records; 49 = what follows the length field; the positions patched by `writeToVersion2` are the Spec's
+field offsets of lastOffsetDelta, firstTimestamp, maxTimestamp, count, (CRC start), batchLength, crc;
+compression = attributes mod 8; control = bit 5; magic byte at 16. -/
+theorem gen_consts_match_spec :
+    (encFrame (fun _ => 0) ⟨0, 0, 0, 0, 0, 0, 0, 0, 0, 0, []⟩).length = Gen.RecordConsts.recordBatchHeaderSize
+    ∧ Gen.RecordConsts.legacyHeaderAfterLength + (i64 0 ++ i32 0).length = Gen.RecordConsts.recordBatchHeaderSize
+    ∧ Model.RecordWriter.recordBatchSizeWith Model.RecordWriter.tsDelta 0 0 [] = Gen.RecordConsts.recordBatchHeaderSize
+    ∧ Gen.RecordConsts.v2PatchOffsets =
+        [ (i64 0 ++ i32 0 ++ i32 0 ++ i8 0 ++ u32 0 ++ i16 0).length,
+          (i64 0 ++ i32 0 ++ i32 0 ++ i8 0 ++ u32 0 ++ i16 0 ++ i32 0).length,
+          (i64 0 ++ i32 0 ++ i32 0 ++ i8 0 ++ u32 0 ++ i16 0 ++ i32 0 ++ i64 0).length,
+          (i64 0 ++ i32 0 ++ i32 0 ++ i8 0 ++ u32 0 ++ i16 0 ++ i32 0 ++ i64 0 ++ i64 0 ++ i64 0 ++ i16 0 ++ i32 0).length,
+          (i64 0 ++ i32 0 ++ i32 0 ++ i8 0 ++ u32 0).length,
+          (i64 0).length,
+          (i64 0 ++ i32 0 ++ i32 0 ++ i8 0).length ]
+    ∧ Gen.RecordConsts.v2LengthPrefix = [(i64 0 ++ i32 0).length]
+    ∧ (∀ a : Int, codecOf a = a % ((Gen.RecordConsts.compressionMask + 1 : Nat) : Int))
+    ∧ Gen.RecordConsts.legacyCompressionMask = Gen.RecordConsts.compressionMask
+    ∧ (∀ a : Int, isControl a = decide ((a / (Gen.RecordConsts.controlConst : Int)) % 2 = 1))
+    ∧ Gen.RecordConsts.transactionalConst * 2 = Gen.RecordConsts.controlConst
+    ∧ (∀ bs : Bytes, magicOf bs = bs[Gen.RecordConsts.magicByteOffsetConst]?) := by
+  refine ⟨by simp [encFrame, frameBody, Gen.RecordConsts.recordBatchHeaderSize], by decide, rfl, ?_, ?_, ?_, rfl, ?_, rfl, ?_⟩
+  · simp [Gen.RecordConsts.v2PatchOffsets]
+  · simp [Gen.RecordConsts.v2LengthPrefix]
+  · intro a; rfl
+  · intro a; simp only [isControl, Gen.RecordConsts.controlConst]; rfl
+  · intro bs; rfl
 
 /-! ## Part D — pages (protocol/buffer.go) -/
 
